@@ -941,9 +941,20 @@ def _callable(draw, idx, seq):
     c['params'] = params
     rkind = 'void' if draw(st.integers(0, 5)) == 3 else draw(_kind(SIG_CAT_KINDS if kind == 'signal' else RET_CAT_KINDS, seq))
     c['ret'] = {'kind': rkind, 'ann': []}
+    # interaction of an annotation with the callback/user_data heuristics: the closure target of a callback
+    # explicitly annotated (not nullable) / (nullable) / (skip) (drawn on purpose, it is rare otherwise)
+    forced = {}
+    for j in range(1, len(params)):
+        if params[j]['kind'] == 'gpointer' and params[j - 1]['kind'] in ('cb', 'GAsyncReadyCallback') \
+                and draw(st.integers(0, 3)) == 0:
+            if 'user_data' not in [p['name'] for p in params]:
+                params[j]['name'] = 'user_data'
+            forced[j] = [draw(st.sampled_from([['not', 'nullable'], ['not', 'nullable'], ['nullable'], ['skip']]))]
     for j in range(len(params)):
         draw(_annotations(c, j))
     draw(_annotations(c, 'ret'))
+    for j, a in forced.items():
+        params[j]['ann'] = a
     # deliberate fatal shape, rarely
     if draw(st.integers(0, 39)) == 23 and params:
         j = draw(st.integers(0, len(params) - 1))
@@ -1008,7 +1019,7 @@ def exhaustive_cases():
 # ------------------------------------------------------------------ runner interface
 def plan(tier):
     if tier == 'quick':
-        return [{'n': 25, 'part': i} for i in range(16)]
+        return [{'n': 60, 'part': i} for i in range(16)]
     return [{'n': 3000, 'part': i, 'exhaustive': True} for i in range(16)]
 
 
